@@ -4,6 +4,9 @@ use tokio::net::{TcpListener, TcpStream};
 #[cfg(any(feature = "async-std-runtime", feature = "async-dispatcher-runtime"))]
 use async_std::net::{TcpListener, TcpStream};
 
+#[cfg(zmq_verif)]
+use zmq_simrt::net::{TcpListener, TcpStream};
+
 use super::make_framed;
 use super::AcceptStopHandle;
 use crate::async_rt;
